@@ -131,7 +131,8 @@ def path(eng, acc, task):
     fails = []
     try:
         u, s, v, q = bond_ops.split_matrix_svd(A, q0, q1, tol)
-    except (AssertionError, ValueError, IndexError, KeyError, TypeError, ZeroDivisionError) as e:
+    except Exception as e:
+        reraise_internal(e)
         import traceback
         tb = traceback.extract_tb(e.__traceback__)[-1]
         candidate(eng, acc, task, 'svd_split', f'svd:raises:{type(e).__name__}@{tb.name}', repr(e), inputs)
@@ -232,7 +233,8 @@ def path_retained(eng, acc, task):
     fails = []
     try:
         idx = bond_ops.retained_bond_indices(s, tol)
-    except (AssertionError, ValueError, IndexError, KeyError, TypeError, ZeroDivisionError) as e:
+    except Exception as e:
+        reraise_internal(e)
         candidate(eng, acc, task, 'retained', f'retained:raises:{type(e).__name__}', repr(e), inputs)
         return
     idx = [int(i) for i in idx]
@@ -266,7 +268,8 @@ def path_split(eng, acc, task):
     fails = []
     try:
         B0, B1, qb = split_mps_tensor(A, qd0, qd1, qD, task['distr'], tol=tol)
-    except (AssertionError, ValueError, IndexError, KeyError, TypeError, ZeroDivisionError) as e:
+    except Exception as e:
+        reraise_internal(e)
         import traceback
         tb = traceback.extract_tb(e.__traceback__)[-1]
         candidate(eng, acc, task, 'split_tol', f'split:raises:{type(e).__name__}@{tb.name}', repr(e), inputs)
